@@ -100,7 +100,8 @@ fn ref_process(ws: &mut Vec<RefWin>, id: usize, t: u64, w: u64, cap: usize, maxw
 
 fn c12_manager_search() -> (bool, String) {
     let dom: Vec<u64> = (0..8).collect();
-    let seqs = sequences(&dom, 4, &[0, 1, 2, 3, 4, 5, 6], 300, 12);
+    let (maxlen, nrand) = (crate::bound(4, 5), crate::bound(300, 3000));
+    let seqs = sequences(&dom, maxlen, &[0, 1, 2, 3, 4, 5, 6], nrand, 12);
     let mut tried = 0u64;
     for &w in &[1u64, 2, 3, 5] {
         for &cap in &[1usize, 2, 100] {
@@ -137,7 +138,7 @@ fn c12_manager_search() -> (bool, String) {
             }
         }
     }
-    (false, format!("{} (sequence, width, cap, max_windows) combinations, every prefix compared", tried))
+    (false, format!("{} (sequence, width, cap, max_windows) combinations, every prefix compared (every sequence of <= {} timestamps over 0..8, the permutations of 0..7, {} fixed-seed sequences of 12)", tried, maxlen, nrand))
 }
 
 // ------------------------------------------------------------------------------------------------
@@ -145,7 +146,8 @@ fn c12_manager_search() -> (bool, String) {
 // ------------------------------------------------------------------------------------------------
 fn c12_windowed_stream_search() -> (bool, String) {
     let dom: Vec<u64> = (0..8).collect();
-    let seqs = sequences(&dom, 4, &[0, 1, 2, 3, 4, 5, 6], 300, 12);
+    let (maxlen, nrand) = (crate::bound(4, 6), crate::bound(300, 3000));
+    let seqs = sequences(&dom, maxlen, &[0, 1, 2, 3, 4, 5, 6], nrand, 12);
     let mut tried = 0u64;
     for &w in &[1u64, 2, 3, 5] {
         for &cap in &[1usize, 2, 10000] {
@@ -173,7 +175,7 @@ fn c12_windowed_stream_search() -> (bool, String) {
             }
         }
     }
-    (false, format!("{} (sequence, width, cap) combinations", tried))
+    (false, format!("{} (sequence, width, cap) combinations (every sequence of <= {} timestamps over 0..8, the permutations of 0..7, {} fixed-seed sequences of 12)", tried, maxlen, nrand))
 }
 
 /// helper for c12_sliding_1ms_terminates: does the call only when asked to through the environment (it never returns on the
@@ -246,7 +248,8 @@ fn c12_aggregates_search() -> (bool, String) {
         Some(Value::Number(f64::INFINITY)), Some(Value::Integer(3)), Some(Value::Integer(-4)), Some(Value::String("7".into())), Some(Value::Null),
     ];
     let idx: Vec<u64> = (0..vals.len() as u64).collect();
-    let seqs = sequences(&idx, 3, &[1, 2, 3, 5, 7, 9, 0], 400, 12);
+    let (maxlen, nrand) = (crate::bound(3, 5), crate::bound(400, 4000));
+    let seqs = sequences(&idx, maxlen, &[1, 2, 3, 5, 7, 9, 0], nrand, 12);
     let mut tried = 0u64;
     for &cap in &[1usize, 3, 100] {
         for s in &seqs {
@@ -289,7 +292,7 @@ fn c12_aggregates_search() -> (bool, String) {
             }
         }
     }
-    (false, format!("{} (sequence, cap) combinations", tried))
+    (false, format!("{} (sequence, cap) combinations (every sequence of <= {} out of {} values, the permutations of 7 of them, {} fixed-seed sequences of 12)", tried, maxlen, vals.len(), nrand))
 }
 
 // ------------------------------------------------------------------------------------------------
